@@ -163,6 +163,25 @@ def one(rid, fname, A, B, lift, prop):
     return rec
 
 
+def make_pair(ka, kb, rng, prevB=None):
+    """a random lattice pair for one function, with coincident / parallel / coplanar / perpendicular / equally posed /
+    nearly parallel / same-pose-other-size variants"""
+    A = PR.rand_prim(ka, rng)
+    B = PR.rand_prim(kb, rng, reach=rng.choice((2, 5, 5, 8)))
+    nearpar = False
+    mode = rng.random()
+    if mode < 0.2 and "x" in B.p and "x" in A.p:
+        B.p["x"] = list(A.p["x"])                 # coincident anchors
+    elif mode < (0.75 if ka == kb else 0.55):
+        PR.relate(A, B, rng)                      # exactly parallel / antiparallel / coplanar / perpendicular / same pose
+    elif mode < 0.9 and ka in ("line", "line_segment") and kb in ("line", "line_segment"):
+        A, B = PR.near_parallel_pair(ka, kb, rng)
+        nearpar = True
+    elif mode < 0.75 and prevB is not None and "M" in B.p:
+        B.p["c"], B.p["M"] = list(prevB.p["c"]), prevB.p["M"]        # the previous pose with other sizes
+    return A, B, nearpar
+
+
 def gen(tier, seed, prop):
     rng = random.Random(seed)
     recs, meta, n = [], {}, 0
@@ -171,20 +190,13 @@ def gen(tier, seed, prop):
         ka, kb = PR.kinds_of(fname)
         prevB = None
         for i in range(per):
-            A = PR.rand_prim(ka, rng)
-            B = PR.rand_prim(kb, rng, reach=rng.choice((2, 5, 5, 8)))
-            mode = rng.random()
-            if mode < 0.2 and "x" in B.p and "x" in A.p:
-                B.p["x"] = list(A.p["x"])                 # coincident anchors
-            elif mode < 0.55:
-                PR.relate(A, B, rng)                      # exactly parallel / antiparallel / coplanar / perpendicular / same pose
-            elif mode < 0.65 and ka in ("line", "line_segment") and kb in ("line", "line_segment"):
-                A, B = PR.near_parallel_pair(ka, kb, rng)
-            elif mode < 0.75 and prevB is not None and "M" in B.p:
-                B.p["c"], B.p["M"] = list(prevB.p["c"]), prevB.p["M"]        # the previous pose with other sizes
+            A, B, nearpar = make_pair(ka, kb, rng, prevB)
             prevB = B
             for lk in (("id", rng.choice(("scale", "rigid", "rigid1"))) if tier == "quick" else ("id", "scale", "rigid", "rigid1")):
                 lift = prim_lift(rng, A, B, lk)
+                if nearpar and lk != "id":
+                    # the smallest scale of the primitive domain P (features of 0.2): absolute thresholds vs small scenes
+                    lift = (0.2 / min(A.minfeat(), B.minfeat()) * rng.choice((1.0, 1.0, 2.0)), lift[1], lift[2])
                 n += 1
                 rid = f"p{n}"
                 recs.append(one(rid, fname, A, B, lift, prop))
@@ -195,6 +207,9 @@ def gen(tier, seed, prop):
     for m in json.load(open(os.path.join(os.path.dirname(__file__), "..", "pinned", "c10_nearaxis.json"))):
         _, fn, da, db, sc, Rm, tm = m
         pinned.append((fn, PR.Prim(da.pop("kind"), **da), PR.Prim(db.pop("kind"), **db), (sc, np.array(Rm), np.array(tm))))
+    m = json.load(open(os.path.join(os.path.dirname(__file__), "..", "pinned", "c11_segcircle.json")))
+    da, db = dict(m["A"]), dict(m["B"])
+    pinned.append((m["fn"], PR.Prim(da.pop("kind"), **da), PR.Prim(db.pop("kind"), **db), (m["lift"][0], np.array(m["lift"][1]), np.array(m["lift"][2]))))
     for fname, A, B, lift in pinned:
         n += 1
         rid = f"p{n}"
